@@ -24,6 +24,12 @@ JOBS = seq_jobs(64, ("quick",), "", 300) + seq_jobs(131072, ("thorough",), ".ful
   Job("c02.pop_vs_thieves.full", "c02_handshake.c", "h_pop_vs_thieves", replace=HS, defines=["-DQMAX=4096"], cbmc=["--unwind", "4100", "--unwinding-assertions"],
       fuc=["myth_queue_pop"], timeout=1800, mem_gb=16, tiers=("thorough",), note="as above, capacity symbolic in [2,4096]"),
 ]
+JOBS += [
+  Job("c02.wsapi_take.victim%d" % v, "c02_wsapi.c", "h_wsapi_take", defines=["-DQMAX=64", "-DVICTIM=%d" % v],
+      replace=["myth_wsqueue_lock_trylock/trylock_contract", "myth_wsqueue_lock_unlock/unlock_contract"],
+      restrict_fp=["myth_wsapi_runqueue_take.function_pointer_call.1/verif_decide"],
+      fuc=["myth_wsapi_runqueue_take"], timeout=300, note="victim worker %d of 2" % v) for v in (0, 1)
+]
 META = {
  "level": "proof",
  "level_text": "Sequential contracts on the real run-queue operations against the abstract view ptr[base..top): length change, position of the new/removed element, preservation of every other element (witness index) also across re-centring, well-formedness, lock protocol; capacity symbolic (64 in the quick tier, the real 131072 in the thorough tier).",
